@@ -40,6 +40,15 @@ CHECKS = {
           "keystream at offset 64*ic, including across the 2^32 carry and the 2^64 wrap, and that the IETF form refuses exactly the requests that would pass block 2^32. "
           "Block functions themselves are tied to the executable RFC 8439 / Salsa20 specification by correspondence on every length 0..2304 and every backend reachable by CPU masks and build variants."),
     note=NOTE_COMMON + "block/round functions are parameters of the theorems (translation-validated, not proved)."),
+ "C04": dict(
+    category="proof", design_ref="DESIGN.md §3.4",
+    technique="Lean 4 theorems (buffer/counter invariants by induction over the chunk list; padding; HMAC/HKDF algebra over a chunk-law hypothesis) + differential correspondence against executable FIPS 180-4 / RFC 7693 / RFC 8439 / RFC 5869 specs on every backend",
+    text=("The streaming front-ends (SHA-256/512 count+buf with the two-branch padding, BLAKE2b lazy two-block buffer with key block and last-block flag, Poly1305 leftover buffer, HMAC inner/outer "
+          "contexts with long-key hashing, HKDF counter chaining, BLAKE2b subkey derivation, generichash range checks) are modelled as written with the compression functions as parameters; Lean proves "
+          "that ANY split into update chunks (empty ones included) yields the one-shot specification value, that HKDF-expand is RFC 5869 for every output length and errors beyond 255 blocks, and the exact "
+          "error conditions. Compression functions and the Poly1305 limb code are tied to the executable specifications by correspondence on every length 0..1100, adversarial Poly1305 accumulators, all "
+          "BLAKE2b key/output lengths, on every backend reachable by CPU masks and build variants (ref/SSSE3/SSE4.1/AVX2, donna64/donna32/SSE2)."),
+    note=NOTE_COMMON + "compression/round functions and limb arithmetic are parameters of the theorems (translation-validated, not proved)."),
 }
 
 NOT_YET = {}
